@@ -281,7 +281,7 @@ func runGateway(c *rig.Ctx, cs Case, m mode) int {
 	}
 
 	ts := world()
-	g := newGateway(&rest.Config{Host: ts.URL, QPS: 10000, Burst: 10000}, func(string) []string { return []string{ts.URL} }, int(cs.ShardCount), eps)
+	g := newGateway(&rest.Config{Host: ts.URL, QPS: 10000, Burst: 10000, Timeout: 5 * time.Second}, func(string) []string { return []string{ts.URL} }, int(cs.ShardCount), eps)
 	var srv *env
 	if cs.Sync != nil {
 		var err error
